@@ -52,6 +52,7 @@ func main() {
 	noFD := fs.Bool("nofd", false, "disable the finite-domain fast path")
 	crossFD := fs.Int("crossfd", 211, "cross-check every n-th finite-domain verdict against the SMT solver")
 	cpuprof := fs.String("cpuprofile", "", "write a CPU profile")
+	hangViol := fs.Bool("hangviolation", false, "exhausting the step budget counts as a violation")
 	stopOnViol := fs.Bool("stoponviolation", false, "stop at the first violation")
 	fs.Parse(os.Args[2:])
 
@@ -100,14 +101,14 @@ func main() {
 	for _, h := range strings.Split(*harness, ",") {
 		cfg := interp.Config{Harness: h, Setup: *setup, Workers: *workers, StepBudget: *budget, MaxPaths: *maxPaths,
 			WallLimit: *wall, Solver: *solver, SymbolicMapOrder: *mapOrder, MaxPreemptions: *preempt, MaxThreads: *threads,
-			Params: pm, Trace: *trace, MaxDepth: *maxDepth, StopOnViolation: *stopOnViol, NoFD: *noFD, CrossCheckFD: *crossFD}
+			Params: pm, Trace: *trace, MaxDepth: *maxDepth, StopOnViolation: *stopOnViol, NoFD: *noFD, CrossCheckFD: *crossFD, Fallback: []string{"z3-new", "cvc5"}, HangIsViolation: *hangViol}
 		res, err := interp.Explore(prog, cfg)
 		if err != nil {
 			fatal(err)
 		}
 		all[h] = res
 		fmt.Fprintf(os.Stderr, "%s: paths=%d outcomes=%v decisions=%d queries(unsat/sat/unknown)=%v solver=%.1fs wall=%.1fs violations=%d exhaustive=%v\n",
-			h, res.Stats.Paths, res.Outcomes, res.Stats.Decisions, fmt.Sprint(res.Queries, " fd(sat/unsat/xchk/mismatch)=", res.Stats.FDSat, res.Stats.FDUnsat, res.Stats.FDCrossChecked, res.Stats.FDMismatch), res.SolverTime.Seconds(), res.Wall.Seconds(), len(res.Violations), res.Exhaustive)
+			h, res.Stats.Paths, res.Outcomes, res.Stats.Decisions, fmt.Sprint(res.Queries, " unknown(feas/assert)=", res.Stats.UnknownFeasibility, res.Stats.UnknownAssert, " fd(sat/unsat/xchk/mismatch)=", res.Stats.FDSat, res.Stats.FDUnsat, res.Stats.FDCrossChecked, res.Stats.FDMismatch), res.SolverTime.Seconds(), res.Wall.Seconds(), len(res.Violations), res.Exhaustive)
 		for k, v := range res.Inconclusive {
 			fmt.Fprintf(os.Stderr, "  inconclusive %dx %s\n", v, k)
 		}
